@@ -64,6 +64,10 @@ FORMS = {
     "module-path": ("use b::inner::PLACEN;", "PLACEN", ("import", "b", "N")),
     "glob": ("use b::*;", "PLACEN", ("import", "b", "N")),
     "glob-and-name": ("use b::*;\nuse b::Unused;", "PLACEN", ("import", "b", "N")),
+    "glob-and-same-name": ("use b::*;\nuse b::PLACEN;", "PLACEN", ("import", "b", "N")),
+    "glob-and-renamed-name": ("use b::*;\nuse b::Ren;", "Ren", ("import", "b", "Other")),
+    "renamed-name-then-glob": ("use b::Ren;\nuse b::inner::*;", "Ren", ("import", "b", "Other")),
+    "glob-and-qualified-renamed": ("use b::*;", "b::Ren", ("import", "b", "Other")),
     "qualified": ("", "b::PLACEN", ("import", "b", "N")),
     "qualified-module": ("", "b::inner::PLACEN", ("import", "b", "N")),
     "qualified-in-qualified": ("", "b::Gen<b::PLACEN>", ("import", "b", "N")),
@@ -295,6 +299,12 @@ def case_imports(case):
             body = ska.text
             if nm != "N" and nm not in body and not res["violations"]:
                 raise Unsupported("vacuity: %s does not occur in crate a's module" % nm)
+            # a serde-renamed foreign type is referred to by its new name: the Rust name must not survive in the module
+            rust_name = FORMS[form][1].split("::")[-1].split("<")[0]
+            if nm != "N" and rust_name != nm and re.search(r"(?<![\w])%s(?![\w])" % re.escape(rust_name), body):
+                m = I.sat_model(z3.BoolVal(True))
+                line = [l for l in body.split("\n") if re.search(r"(?<![\w])%s(?![\w])" % re.escape(rust_name), l)][0]
+                res["violations"].append({"kind": "reference-keeps-rust-name", "crate": crate, "name": rust_name, "want": nm, "line": line.strip()[:120], "n": ev(m, [sym])})
             # and not imported from any other module
             for span, module in imps:
                 if module != crate:
@@ -655,6 +665,13 @@ def native_imports(d, case, v):
         if bad:
             return True, "%s: %s has imports %s" % (where, afile, bad), payload
         return False, "real output imports %s" % imps, None
+    if kind == "reference-keeps-rust-name":
+        rust_name = FORMS[form][1].split("::")[-1].split("<")[0]
+        body = "\n".join(l for l in outs[afile].split("\n") if not HEADER.match(l) or rust_name in l and not l.lstrip().startswith(("import", "from", "//", "/*", "*")))
+        hit = [l for l in body.split("\n") if re.search(r"(?<![\w])%s(?![\w])" % re.escape(rust_name), l)]
+        if hit:
+            return True, "%s: %s still refers to the foreign type by its Rust name `%s` (it is defined as `%s` in %s): `%s`" % (where, afile, rust_name, expect[2], out_name(lang, expect[1]), hit[0].strip()[:120]), payload
+        return False, "real output does not mention %s" % rust_name, None
     return None, "no replay for kind " + kind, None
 
 
